@@ -70,7 +70,18 @@ func c03Scenario(r *vk.RNG) *pipeScenario {
 	ps.Initial = r.Range(4, 14)
 	ps.StartK = []int{1, 1, 2, 0, 3}[r.Intn(5)]
 	n := r.Range(5, 14)
+	// one run in five: the operator restarts with a smaller batch_size half way (position rows written with the
+	// larger one stand for several blocks each; an unwind reaching them must still remove all their rows)
+	rebatch := -1
+	if ps.Batch > 2 && r.Chance(1, 5) {
+		rebatch = n / 2
+	}
 	for i := 0; i < n; i++ {
+		if i == rebatch {
+			ps.Hist = append(ps.Hist, histOp{Kind: "step"}, histOp{Kind: "restart", N: r.Range(1, 2)}, histOp{Kind: "grow", N: 2}, histOp{Kind: "step"}, histOp{Kind: "step"},
+				histOp{Kind: "reorg", Depth: r.Range(3, 5), NewLen: r.Range(3, 6)})
+			continue
+		}
 		switch r.Intn(7) {
 		case 0, 1, 2:
 			ps.Hist = append(ps.Hist, histOp{Kind: "step"})
